@@ -374,9 +374,14 @@ def r163(ctx, rep):
     guard = None
     for node in ast.walk(h.node):
         if isinstance(node, ast.If):
-            p = _cmp_parts(node.test)
+            t_ = node.test
+            if isinstance(t_, ast.UnaryOp) and isinstance(t_.op, ast.Not):
+                t_ = t_.operand      # `if not g >= 0: zero step else: use the step` - the same guard, branches swapped
+            p = _cmp_parts(t_)
             if p and norm(p[0]) == "grad_step" and p[1] in (">=", ">") and const_value(p[2]) in (0, 0.0):
                 guard = node
+            if p and norm(p[0]) == "grad_step" and p[1] in ("<",) and const_value(p[2]) in (0, 0.0) and node.orelse:
+                guard = node         # `if g < 0: zero step else: use the step`
     if guard is None:
         raise AnalysisError("_cauchy_geom: guard `grad_step >= 0` not found")
     for k, bound, bop, want_g in (("fixed_xl", "xl", "<", "<"), ("fixed_xu", "xu", ">", ">")):
